@@ -420,6 +420,11 @@ func clipb(b []byte) []byte {
 var sizes = []int{0, 1, 2, 255, 256, 65531, 4095, 4096, 4097, 32767, 32768}
 
 func drawSet(t *rapid.T, big bool) []ref.Triplet {
+	if rapid.IntRange(0, 3).Draw(t, "specshaped") == 0 {
+		// parameter sets as peers send them: the specification's tags with the sizes and kinds of values
+		// the specification gives them (the three segmentation parameters together, counters 1..4)
+		return gen.DrawTriplets(t, gen.Opts{}, "spec")
+	}
 	n := rapid.OneOf(rapid.IntRange(0, 4), rapid.IntRange(0, 32)).Draw(t, "n")
 	tags := rapid.SliceOfNDistinct(gen.TagGen, n, n, rapid.ID[uint16]).Draw(t, "tags")
 	ts := make([]ref.Triplet, n)
